@@ -270,6 +270,9 @@ func genScan(t *Tracer, m *Meta, tier string, seed int64) {
 					pat = uint64(r.Intn(1 << uint(n-1)))
 				}
 				vals = valsFromPattern(enc, n, pat, int64(r.Intn(50)))
+				if n > 2 && r.Intn(3) == 0 {
+					vals = valsRecurring(r, enc, n, 2+r.Intn(2), 0)
+				}
 			}
 			c := &TrieCase{Keys: keys, Enc: enc, Vals: vals, Opt4: o4}
 			runScanCase(t, m, r, c, strs, true, r.Intn(2) == 0, 8)
